@@ -188,7 +188,7 @@ func init() {
 			kinds = append(kinds, k.Name)
 		}
 		// half of the sequences run INSIDE the patterns of the listed findings: the model reproduces the defects too
-		cfg := c12GenCfg{Kinds: kinds, Unscoped: 0.4, Slice: 0.4, MaxLen: 8, Avoid: 0.5, Tie: true}
+		cfg := c12GenCfg{Kinds: kinds, Unscoped: 0.4, Slice: 0.4, MaxLen: 8, Avoid: 0.5, Tie: true, Handles: 0.3}
 		var batch []c12Seq
 		for i := 0; i < n && !expired(); i++ {
 			s := c12GenSeq(rng, cfg)
